@@ -80,8 +80,8 @@ QuoteV(v) == IF ~v.q THEN [v EXCEPT !.q = TRUE] ELSE [V("quote", 0, "", "", TRUE
 \* ------------------------------------------------------- builtin registry
 \* (name -> kind) of everything this machine knows in package lisp
 OPS    == {"quote", "if", "progn", "let", "let*", "flet", "labels", "lambda", "cond", "and", "or",
-           "set!", "handler-bind", "ignore-errors", "dotimes", "quasiquote", "thread-first", "thread-last", "macrolet"}
-MACROS == {"defun", "defmacro"}
+           "set!", "handler-bind", "ignore-errors", "dotimes", "quasiquote", "thread-first", "thread-last", "macrolet", "boom-op"}
+MACROS == {"defun", "defmacro", "boom-macro"}
 FUNS   == {"+", "-", "*", "/", "=", "<", ">", "<=", ">=", "not", "list", "cons", "car", "cdr", "first", "rest",
            "length", "identity", "nil?", "set", "funcall", "apply", "error", "rethrow", "probe", "boom",
            "load-string", "in-package", "use-package", "export", "capture",
@@ -631,6 +631,10 @@ DoCall(s) ==
                       !.pkg = IF fd.pkg \in DOMAIN s.pkgs THEN fd.pkg ELSE @,
                       !.ctl = [mode |-> "bodystep"]]
   ELSE IF ~ArityOK(f.s, n) THEN Fail(s, env)
+  ELSE IF f.s \in {"boom-op", "boom-macro"}
+  THEN \* host special operator / host macro of the test programs whose Go body panics: the activation's
+       \* frame (TRO-blocked for the macro) is on the stack at that point and is removed by the unwinding
+       [s EXCEPT !.ctl = [mode |-> "panic"]]
   ELSE IF kind = "op" THEN [s EXCEPT !.k = Append(@, [t |-> "op", op |-> f.s, args |-> args, env |-> env, j |-> 0, vals |-> <<>>,
                                                        tail |-> FALSE, env2 |-> env, phase |-> "body", pushed |-> FALSE,
                                                        n |-> 0, cnt |-> VNil, turn |-> 0, bi |-> 0, err |-> VNil,
